@@ -118,6 +118,12 @@ def core_det(tier):
             {"complete_poll": True, "search_n_try": 0, "max_fun_evals": 70}, tags=["complete_poll", "ntry0", "multi_improve"])
         add(4, S.box_geom(4, x0=[3.0, -3.0, 2.0, -1.0]), _quad(4, r, cond=2.0), {"complete_poll": True, "search_n_try": 1, "max_fun_evals": 120},
             tags=["complete_poll", "ntry1", "multi_improve"])
+        # more than two ES generations / smaller populations (non-default search options)
+        add(2, S.box_geom(2, x0=[3.0, -2.0]), _quad(2, r), {"n_search_iter": 3, "max_fun_evals": 60}, tags=["nsearchiter3"])
+        add(3, S.box_geom(3, x0=[3.0, -2.0, 1.0]), _quad(3, r), {"n_search_iter": 4, "n_search": 2 ** 10, "max_fun_evals": 70},
+            tags=["nsearchiter4"])
+        add(2, S.box_geom(2, -5, 5, -3, 3, x0=[1.0, -1.0]), _quad(2, r, mn=[7.5, -8.0]), {"n_search_iter": 3, "n_search": 2 ** 9, "max_fun_evals": 60},
+            tags=["nsearchiter3", "outside"])
         # rippled bowls: the GP cannot rank the poll points, so polls see improving
         # points in arbitrary order (several improving points per poll)
         for j in range(6 if tier == "quick" else 10):
@@ -257,6 +263,16 @@ def cons_panel(tier):
                 noise=noise, options={"noise_final_samples": 3}, tags=["halfspace", mode])
             add(2, box, _quad(2, r, mn=[2.5, -2.0], cond=5.0), {"family": "ball", "c": [0.0, 0.0], "r": 1.5},
                 noise=noise, options={"noise_final_samples": 2}, tags=["ball", mode])
+        # candidate sets that shrink to a single row: 1-D problems next to a bound, one-point initial designs
+        add(1, {"lb": [0.0], "ub": [10.0], "plb": [1.0], "pub": [9.0], "x0": [9.5]}, {"family": "quad", "min": [2.0], "eig": [1.0], "rot_seed": 0},
+            {"family": "halfspace", "w": [-1.0], "b": -6.0}, options={"max_fun_evals": 50}, tags=["d1", "single_row"])
+        add(1, {"lb": [-4.0], "ub": [4.0], "plb": [-2.0], "pub": [2.0], "x0": [-3.7]}, {"family": "quad", "min": [3.0], "eig": [1.0], "rot_seed": 0},
+            {"family": "halfspace", "w": [1.0], "b": -1.5}, options={"max_fun_evals": 50}, tags=["d1", "single_row"])
+        add(2, S.box_geom(2, -8, 8, -6, 6, x0=[0.2, 0.1]), _quad(2, r, mn=[3.0, 3.0]), {"family": "ball", "c": [0.0, 0.0], "r": 1.0},
+            options={"fun_eval_start": 1, "max_fun_evals": 50}, tags=["one_point_design", "single_row"])
+        add(1, {"lb": [0.0], "ub": [10.0], "plb": [1.0], "pub": [9.0], "x0": [9.5]}, {"family": "quad", "min": [2.0], "eig": [1.0], "rot_seed": 0},
+            {"family": "halfspace", "w": [-1.0], "b": -6.0}, noise={"mode": "declared", "sigma": 0.3},
+            options={"max_fun_evals": 70, "noise_final_samples": 2}, tags=["d1", "single_row", "declared"])
         # infeasible starting points: x0 itself, and x0 feasible but snapped image infeasible.
         # pairs g(x) >= g(x0) / g(x) <= g(x0): one of each pair is infeasible after snapping
         for k in range(3):
